@@ -19,7 +19,7 @@ MODELS = [("c20", "Extract/ExC20.v", "run_C20")]
 
 LNAME = {1: "W", 2: "Flush", 3: "Close", 4: "FGet", 5: "FNowait", 6: "FChoose", 7: "FDeliver",
          8: "AppStart", 9: "AppExit", 10: "AppStop", 11: "LoopClose", 12: "LoopStep", 13: "Render",
-         14: "ExtBegin", 15: "ExtEnd", 16: "Wake"}
+         14: "ExtBegin", 15: "ExtEnd", 16: "Wake", 17: "CprAnswer", 18: "CprTimeout"}
 LIFECYCLE = (8, 9, 10, 11)
 
 
@@ -76,6 +76,8 @@ class Walk:
             for k in (13, 14, 15):
                 if self.budget.get(k, 0) > 0 or k == 15:
                     c.append([k])
+        if self.scenario != "noapp" and (self.ctx & 2):
+            c += [[17], [18]]
         if self.scenario == "lifecycle":
             for k in LIFECYCLE:
                 if self.budget.get(k, 0) > 0 or k == 10:
@@ -238,30 +240,35 @@ def gen_schedules(chk):
         [[("w", "p\nq")], [("w", "r"), ("f",)]],
     ]
     for progs in small:
-        add(explore(rng, Walk(progs, "noapp", True, {}), depth, cap), "exhaustive-noapp")
-        w = Walk(progs, "running", True, {13: 1, 14: 1})
+        add(explore(rng, Walk(progs, "noapp", 1, {}), depth, cap), "exhaustive-noapp")
+        w = Walk(progs, "running", 1, {13: 1, 14: 1})
         w.take([8])
         add(explore(rng, w, depth + 1, cap), "exhaustive-running")
-    w = Walk(small[0], "running", False, {})
+    w = Walk(small[0], "running", 0, {})
     w.take([8])
     add(explore(rng, w, depth, cap // 2), "exhaustive-running-other-session")
-    w = Walk(small[0], "lifecycle", True, {8: 1, 9: 1, 11: 1, 14: 1})
+    w = Walk(small[0], "lifecycle", 1, {8: 1, 9: 1, 11: 1, 14: 1})
     add(explore(rng, w, depth + 1, cap), "exhaustive-lifecycle")
+    # outputs that answer cursor position requests: a print waits for the outstanding report
+    for progs, budget in ((small[0], {13: 1, 9: 1}), ([[("w", "a\n"), ("w", "b\n")]], {13: 1, 9: 1, 14: 1})):
+        w = Walk(progs, "lifecycle", 3, dict(budget))
+        w.take([8])
+        add(explore(rng, w, depth + 3, cap), "exhaustive-cpr")
     # random deep walks
     n = 900 if thorough else 110
-    wt_flush = {4: 3.0, 5: 3.0, 6: 3.0, 7: 3.0, 12: 3.0, 15: 2.0}
-    starts = [Walk(rand_program(rng, rng.randint(1, 4), 4), "noapp", True, {"early_close": rng.random() < 0.2})
+    wt_flush = {4: 3.0, 5: 3.0, 6: 3.0, 7: 3.0, 12: 3.0, 15: 2.0, 17: 1.5, 18: 0.7}
+    starts = [Walk(rand_program(rng, rng.randint(1, 4), 4), "noapp", 1, {"early_close": rng.random() < 0.2})
               for _ in range(n)]
     add(random_walks(rng, starts, 60, wt_flush), "random-noapp")
     starts = []
     for _ in range(n):
-        w = Walk(rand_program(rng, rng.randint(1, 4), 4), "running", True, {13: 2, 14: 2})
+        w = Walk(rand_program(rng, rng.randint(1, 4), 4), "running", rng.choice([1, 1, 3, 3, 2]), {13: 2, 14: 2})
         w.take([8])
         starts.append(w)
     add(random_walks(rng, starts, 70, wt_flush), "random-running")
     starts = []
     for _ in range(n):
-        w = Walk(rand_program(rng, rng.randint(1, 3), 4), "lifecycle", rng.random() < 0.8,
+        w = Walk(rand_program(rng, rng.randint(1, 3), 4), "lifecycle", rng.choice([1, 1, 3, 3, 0, 2]),
                  {8: 2, 9: 2, 11: 1, 13: 1, 14: 1, "early_close": rng.random() < 0.1})
         starts.append(w)
     add(random_walks(rng, starts, 70, {**wt_flush, 8: 2.0, 9: 0.6, 11: 0.4}), "random-lifecycle")
@@ -278,7 +285,7 @@ def nwriters_of(labels):
 def replay_schedule(ctx, labels, complete=True):
     """-> (canonical result like the model's, info dict for the oracle)"""
     steps = mark_reports(labels)
-    rig = c20_rig.Rig(bool(ctx), True, nwriters_of(labels))
+    rig = c20_rig.Rig(bool(ctx & 1), True, nwriters_of(labels), cpr=bool(ctx & 2))
     obs = []
     status = None
     try:
@@ -346,7 +353,7 @@ def cause_of(ctx, labels, fam=None, flags=()):
             chosen = True
         elif l[0] == 7:
             chosen = False
-        elif l[0] in LIFECYCLE and chosen:
+        elif l[0] in (8, 10, 11) and chosen:     # AppExit alone leaves the chosen loop valid
             race = True
         if l[0] == 14:
             ext_open += 1
@@ -362,7 +369,7 @@ def cause_of(ctx, labels, fam=None, flags=()):
         return "lifecycle-race"
     if exit_in_term:
         return "exit-while-in-terminal"
-    if not ctx:
+    if not (ctx & 1):
         return "other-session"
     return "none"
 
@@ -608,7 +615,7 @@ def judge_schedule(chk, ctx, labels, origin, info):
         seen.add(fam)
         cause = cause_of(ctx, labels, fam, info.get("flags", ()))
         chk.violation("oracle", "%s [%s; proxy in %s session] schedule: %s" % (
-            msg, origin, "the default" if ctx else "a create_app_session()", show(labels)),
+            msg, origin, ("the default" if ctx & 1 else "a create_app_session()") + (", output answering CPR" if ctx & 2 else ""), show(labels)),
             {"family": fam, "cause": cause},
             {"ctx_default": int(ctx), "labels": labels, "family": fam, "clause": msg,
              "how": "harness/c20.py replay_schedule: real StdoutProxy/Application driven label by label"})
@@ -663,7 +670,7 @@ def main(tier):
                    oracle_failed=lambda i: i in oracle_bad)
 
     # malformed cases: the model must answer bad_case
-    mal = [[0, 1, [[[99], 1]]], [0, 2, []], [7], [1, 1, [[4]], [[77]]], [0, 1, [[[16, -1], 1]]]]
+    mal = [[0, 1, [[[99], 1]]], [0, 9, []], [7], [1, 1, [[4]], [[77]]], [0, 1, [[[16, -1], 1]]]]
     for m, r in zip(mal, run_model("c20", mal)):
         if r != [-999]:
             chk.violation("tie", "model accepted malformed case %r -> %r" % (m, r), {"kind": "malformed"}, {"case": m}, no_input=True)
@@ -750,7 +757,8 @@ def replay(data):
         labels = [st[0] for st in rep["case"][2]]
     else:
         ctx, labels = rep["ctx_default"], rep["labels"]
-    print("proxy created in", "the default AppSession" if ctx else "a create_app_session() session")
+    print("proxy created in", "the default AppSession" if ctx & 1 else "a create_app_session() session",
+          "| output responds to CPR" if ctx & 2 else "")
     print("schedule:", show(labels))
     res, info = replay_schedule(ctx, labels)
     for e in info["events"]:
